@@ -11,13 +11,14 @@ use lvh::conv::*;
 use lvh::sx::Sx;
 use std::collections::BTreeMap;
 
-struct Iso {
+struct Iso<'a> {
+    before: &'a Document,
     fwd: BTreeMap<ObjectId, ObjectId>,
     bwd: BTreeMap<ObjectId, ObjectId>,
     queue: Vec<(ObjectId, ObjectId)>,
 }
 
-impl Iso {
+impl<'a> Iso<'a> {
     fn pair(&mut self, a: ObjectId, b: ObjectId) -> Result<(), String> {
         if let Some(b0) = self.fwd.get(&a) {
             if *b0 != b {
@@ -65,6 +66,16 @@ impl Iso {
                     return Err("a stream changed its content".into());
                 }
                 self.dict(&a.dict, &b.dict)
+            }
+            // ISO 32000-1 7.3.10: a reference to an object that does not exist is a reference to the null object.
+            // Writing such a reference as null changes nothing it denotes ("a reference that resolved to nothing
+            // still resolves to nothing"); writing a reference that named an object as null is a violation.
+            (Object::Reference(a), Object::Null) => {
+                if self.before.objects.contains_key(a) {
+                    Err(format!("reference {:?} resolved to an object before; afterwards it is null", a))
+                } else {
+                    Ok(())
+                }
             }
             (Object::Reference(_), _) | (_, Object::Reference(_)) => Err("a reference appeared or disappeared".into()),
             (Object::Array(_), _) | (Object::Dictionary(_), _) | (Object::Stream(_), _) => {
@@ -114,7 +125,7 @@ fn evaluate(before: &Document, after: &Document, start: u32) -> Result<(), Strin
         }
     }
     // 2. one-to-one renaming discovered in lock step from the trailer and the bookmark targets
-    let mut iso = Iso { fwd: BTreeMap::new(), bwd: BTreeMap::new(), queue: vec![] };
+    let mut iso = Iso { before, fwd: BTreeMap::new(), bwd: BTreeMap::new(), queue: vec![] };
     iso.dict(&before.trailer, &after.trailer).map_err(|e| format!("trailer: {}", e))?;
     if before.bookmarks != after.bookmarks {
         return Err("the bookmark roots changed".into());
@@ -135,8 +146,8 @@ fn evaluate(before: &Document, after: &Document, start: u32) -> Result<(), Strin
             (Some(_), None) => return Err(format!("reference {:?} resolved before; afterwards it reads {:?} and resolves to nothing", a, b)),
         }
     }
-    // 2b. bookmark targets are ids held by the bookmarks: they are renamed by the same one-to-one renaming,
-    // a target that named an object still names that object, a target that named nothing still names nothing.
+    // 2b. bookmark targets are ids held by the bookmarks: a target that named an object is renamed by the same
+    // one-to-one renaming and still names that object, a target that named nothing still names nothing.
     // (An object that only a bookmark points to is not reachable from the trailer: it is moved as it is.)
     let mut bids: Vec<_> = before.bookmark_table.keys().cloned().collect();
     bids.sort_unstable();
@@ -145,6 +156,19 @@ fn evaluate(before: &Document, after: &Document, start: u32) -> Result<(), Strin
         let y = after.bookmark_table.get(b).ok_or("a bookmark disappeared")?;
         if x.children != y.children {
             return Err("bookmark children changed".into());
+        }
+        if !before.objects.contains_key(&x.page) {
+            // a target that named nothing still names nothing (whatever id it holds afterwards: the renaming is
+            // one-to-one on the ids that name objects; ids that name nothing all denote "no page")
+            if after.objects.contains_key(&y.page) {
+                return Err(format!("bookmark {}: target {:?} named nothing; afterwards it reads {:?} and names an object", b, x.page, y.page));
+            }
+            if let Some(y2) = iso.fwd.get(&x.page) {
+                if *y2 != y.page {
+                    return Err(format!("bookmark {}: target {:?} was renamed to {:?}, a reference to it to {:?}", b, x.page, y.page, y2));
+                }
+            }
+            continue;
         }
         let reached = iso.fwd.contains_key(&x.page);
         iso.pair(x.page, y.page).map_err(|e| format!("bookmark {}: {}", b, e))?;
@@ -156,11 +180,8 @@ fn evaluate(before: &Document, after: &Document, start: u32) -> Result<(), Strin
                         return Err(format!("bookmark {}: target {:?} -> {:?} is unreachable from the trailer and changed", b, x.page, y.page));
                     }
                 }
-                (None, None) => {}
-                (None, Some(_)) => {
-                    return Err(format!("bookmark {}: target {:?} named nothing; afterwards it reads {:?} and names an object", b, x.page, y.page))
-                }
                 (Some(_), None) => return Err(format!("bookmark {}: target {:?} named an object; afterwards {:?} names nothing", b, x.page, y.page)),
+                (None, _) => unreachable!(),
             }
         }
     }
